@@ -261,7 +261,26 @@ IMPORT_SHAPES = {
     "big_middle": [("a.dll", 2), ("big.dll", 300), ("c.dll", 2)],
     "two_big": [("big1.dll", 300), ("big2.dll", 300), ("c.dll", 2)],
     "huge_first": [("huge.dll", 600), ("b.dll", 2)],
+    # modules whose names agree up to the first dot (the stem canon_libname_libfunc keeps) importing the same
+    # function names and ordinals; explicit function lists
+    "stem_versioned": [("libfoo.1.dll", ["f", "g", 7]), ("libfoo.2.dll", ["f", 7, "h"])],
+    "stem_ext": [("winspool.dll", ["OpenPrinterA", 3]), ("winspool.drv", ["OpenPrinterA", 3, "ClosePrinter"])],
+    "stem_underscore": [("a.dll", ["b_c", "x"]), ("a_b.dll", ["c", "x"])],
+    "stem_three": [("m.1.dll", ["f", 1]), ("m.2.dll", ["f", 1]), ("m.3.dll", ["f", 1])],
+    # the same module under two spellings (one library for the loader): equal keys must give equal stubs
+    "same_case": [("Kernel32.dll", ["f", 9]), ("KERNEL32.DLL", ["f", 9, "g"])],
+    "same_noext": [("foo", ["f"]), ("foo.dll", ["f", "g"])],
 }
+
+
+def shape_funcs(n_or_list):
+    return import_funcs(n_or_list) if isinstance(n_or_list, int) else list(n_or_list)
+
+
+def norm_libname(dll):
+    """The library name libimp files a module under."""
+    dll = dll.lower().strip(" ")
+    return dll if "." in dll else dll + ".dll"
 
 
 def import_funcs(n):
@@ -276,7 +295,7 @@ def build_import_image(wsize, shape, base):
     from miasm.loader.pe_init import PE
     psz = wsize // 8
     libs = IMPORT_SHAPES[shape]
-    nslots = sum(n + 1 for _, n in libs)
+    nslots = sum(len(shape_funcs(n)) + 1 for _, n in libs)
     iat_off = 0x100
     pe = PE(wsize=wsize)
     pe.NThdr.ImageBase = base
@@ -285,7 +304,7 @@ def build_import_image(wsize, shape, base):
     new_dll, model = [], []
     slot = text.addr + iat_off
     for i, (dll, n) in enumerate(libs):
-        funcs = import_funcs(n)
+        funcs = shape_funcs(n)
         new_dll.append(({"name": dll, "firstthunk": slot if i == 0 else None}, list(funcs)))
         for f in funcs:
             model.append((dll, f, base + slot))
